@@ -284,6 +284,19 @@ def run(ctx, build):
                 outs.append(bytes(buf[:r]))
             return outs
         got = impl_call(impl)
+        # a few sized reads, then read-to-end (readall): together exactly the encoding -- nothing buffered may be lost
+        if all(c < 128 for c in content):
+            k = rng.randint(0, min(4, len(sizes)))
+            def impl_tail():
+                t = BufferedTranscoder(io.BytesIO(content), 'netascii', 'ascii', errors='replace')
+                head = [t.read(sz) for sz in sizes[:k]]
+                return b''.join(x or b'' for x in head) + (t.read() if rng.random() < 0.5 else t.readall())
+            tail = impl_call(impl_tail)
+            ctx.stat('transcoder-sized-reads-then-readall')
+            if tail != ('ok', spec_encode(content)):
+                ctx.violation('BufferedTranscoder/short', f'{k} sized reads {sizes[:k]} followed by a read to the end deliver {str(tail)[:80]}, '
+                              f'the encoding is {spec_encode(content)[:40]!r}... ({len(spec_encode(content))} bytes)',
+                              dict(api='xreads-then-readall', content=content, sizes=sizes[:k]))
         m = R.res('xreads', (content, sizes))
         ctx.case(('xreads', content, tuple(sizes)), True, 'transcoder-' + kind)
         if got != m:
